@@ -18,6 +18,7 @@ import (
 
 type HarnessOpts struct {
 	Prop          string
+	Also          []string
 	Tier          string // quick | thorough (harness runs in tiers >= this)
 	Backend       string // bv | lia | nra
 	TimeoutS      int
